@@ -124,13 +124,63 @@ def check_deleg(repo, res, fns):
         if not ok:
             res.add(mk_finding(PROP, "F-DELEG", r, r.node, f"collection format: {rname} reads keys {sorted(rkeys)} but {wname} writes {sorted(wkeys)}", role="collection"))
         # the relative path written is the file name the member was written to
-        fnames = [s for s in own_statements(w.node) if isinstance(s, ast.Assign) and isinstance(s.targets[0], ast.Name) and s.targets[0].id == "fname"]
+        local1 = {}
+        for st in own_statements(w.node):
+            if isinstance(st, ast.Assign) and len(st.targets) == 1 and isinstance(st.targets[0], ast.Name):
+                local1.setdefault(st.targets[0].id, []).append(st.value)
+
+        def parts(e, depth=0):
+            """f-string / name / constant flattened to a list of literal strings and ('v', name) placeholders."""
+            if depth > 4:
+                return [("?", unparse(e))]
+            if isinstance(e, ast.Constant) and isinstance(e.value, str):
+                return [e.value]
+            if isinstance(e, ast.Name):
+                if e.id in local1 and len(local1[e.id]) == 1 and isinstance(local1[e.id][0], (ast.JoinedStr, ast.Constant)):
+                    return parts(local1[e.id][0], depth + 1)
+                return [("v", e.id)]
+            if isinstance(e, ast.JoinedStr):
+                out = []
+                for v in e.values:
+                    if isinstance(v, ast.FormattedValue) and v.format_spec is None and v.conversion == -1:
+                        out += parts(v.value, depth + 1)
+                    else:
+                        out += parts(v, depth + 1)
+                return out
+            return [("?", unparse(e))]
+
+        def norm(ps):
+            out = []
+            for x in ps:
+                if isinstance(x, str) and out and isinstance(out[-1], str):
+                    out[-1] += x
+                else:
+                    out.append(x)
+            return out
+
+        # the path each member is written to: second argument of the inner write call (write_json / write_hif / open)
+        member_paths = []
+        for c in ast.walk(w.node):
+            if isinstance(c, ast.Call) and getattr(c.func, "id", getattr(c.func, "attr", None)) in (wname,) and len(c.args) >= 2:
+                a = c.args[1]
+                if isinstance(a, ast.Name) and len(local1.get(a.id, [])) > 1:
+                    member_paths += local1[a.id]  # one binding per branch (list / dict collections)
+                else:
+                    member_paths.append(a)
+        if not member_paths:
+            member_paths = [st.value for st in own_statements(w.node) if isinstance(st, ast.Assign) and isinstance(st.targets[0], ast.Name) and st.targets[0].id == "fname"]
         rels = [v for d in ast.walk(w.node) if isinstance(d, ast.Dict) for k, v in zip(d.keys, d.values) if isinstance(k, ast.Constant) and k.value == "relative-path"]
-        ok = bool(fnames) and len(fnames) == len(rels)
-        for fs, rel in zip(fnames, rels):
-            ft, rt = unparse(fs.value, 200), unparse(rel, 200)
-            # f"{path}/{X}" vs f"{X}"
-            if not (ft.startswith("f'{path}/") and ft[len("f'{path}/"):] == rt[2:]):
+        ok = bool(member_paths) and bool(rels)
+        pathparam = w.params[1] if len(w.params) > 1 else "path"
+        relset = {tuple(map(str, norm(parts(r_)))) for r_ in rels}
+        for mp in member_paths:
+            pp = norm(parts(mp))
+            # f"{path}/<relative>": strip the leading {path}/
+            if len(pp) >= 2 and pp[0] == ("v", pathparam) and isinstance(pp[1], str) and pp[1].startswith("/"):
+                rest = norm(([pp[1][1:]] if pp[1][1:] else []) + pp[2:])
+                if tuple(map(str, rest)) not in relset:
+                    ok = False
+            else:
                 ok = False
         res.inst("F-DELEG", f"{wname}: the recorded relative path is the file name each member is written to", ok)
         if not ok:
@@ -266,28 +316,57 @@ def check_cast(repo, res, fns):
     calls = [c for c in ast.walk(fn.node) if isinstance(c, ast.Call) and isinstance(c.func, ast.Attribute) and c.func.attr == "add_node_to_edge" and len(c.args) >= 2]
     if not calls:
         raise AnalysisError("parse_bipartite_edgelist: no add_node_to_edge(edge, node) call (extractor does not recognise the code)")
+
+    def column(slice_expr, scope_alt_guards):
+        """{dual truth value: column number} for the index expression of a field (resolved through locals/records)."""
+        out = {}
+        for a in rs.resolve(fn.node, slice_expr):
+            if not (isinstance(a.expr, ast.Constant) and isinstance(a.expr.value, int)):
+                return None
+            truth = None
+            for t, b in a.guards:
+                txt = " ".join(ast.unparse(t).split())
+                if txt == "dual":
+                    truth = b
+                elif txt == "not dual":
+                    truth = not b
+            if truth is None:
+                return None
+            out[truth] = a.expr.value
+        return out
+
+    # the generator writes "node<delimiter>edge" (node first): without dual the node is column 0 and the edge column 1
+    want = {"node": {False: 0, True: 1}, "edge": {False: 1, True: 0}}
     for call in calls:
-        for role, arg, typ, col in (("edge", call.args[0], "edgetype", "edge_index"), ("node", call.args[1], "nodetype", "node_index")):
+        for role, arg, typ in (("edge", call.args[0], "edgetype"), ("node", call.args[1], "nodetype")):
             alts = rs.resolve(fn.node, arg)
             casts = 0
             for a in alts:
                 e = a.expr
+                field = None
                 if isinstance(e, ast.Call) and isinstance(e.func, ast.Name) and len(e.args) == 1 and isinstance(e.args[0], ast.Subscript):
-                    colname = ast.unparse(e.args[0].slice)
-                    ok = e.func.id == typ and colname == col
-                    casts += ok
-                    res.inst("F-CAST", f"parse_bipartite_edgelist:{call.lineno} {role} <- {a.text()}", ok)
-                    if not ok:
-                        res.add(mk_finding(PROP, "F-CAST", fn, call, f"parse_bipartite_edgelist: the {role} handed to add_node_to_edge can be `{a.text()}`; it must be `{typ}(s[{col}])` - with different node and edge types the IDs read back differ from those written", role=f"{role}:{a.text()}"))
+                    field, cast = e.args[0], e.func.id
                 elif isinstance(e, ast.Subscript):
-                    colname = ast.unparse(e.slice)
-                    ok = colname == col and _guard_says_none(a.guards, typ)
-                    res.inst("F-CAST", f"parse_bipartite_edgelist:{call.lineno} {role} <- raw {a.text()} when {typ} is None", ok)
-                    if not ok:
-                        why = f"column `{colname}` instead of `{col}`" if colname != col else f"without `{typ}` being None on that path"
-                        res.add(mk_finding(PROP, "F-CAST", fn, call, f"parse_bipartite_edgelist: the {role} handed to add_node_to_edge can be the raw field `{a.text()}` ({why}); the documented cast is skipped", role=f"{role}:raw:{a.text()}"))
+                    field, cast = e, None
                 else:
                     raise AnalysisError(f"parse_bipartite_edgelist: cannot resolve where the {role} `{a.text()}` comes from (extractor does not recognise the code)")
+                col = column(field.slice, a.guards)
+                if col is None:
+                    raise AnalysisError(f"parse_bipartite_edgelist: cannot resolve the column `{unparse(field.slice, 30)}` of the {role} field to constants under `dual` (extractor does not recognise the code)")
+                col_ok = col == want[role]
+                if cast is not None:
+                    ok = cast == typ and col_ok
+                    casts += ok
+                    res.inst("F-CAST", f"parse_bipartite_edgelist:{call.lineno} {role} <- {a.text()} (columns {col})", ok)
+                    if not ok:
+                        why = f"cast with `{cast}` instead of `{typ}`" if cast != typ else f"taken from column {col} (dual -> column) instead of {want[role]}"
+                        res.add(mk_finding(PROP, "F-CAST", fn, call, f"parse_bipartite_edgelist: the {role} handed to add_node_to_edge can be `{a.text()}`: {why}; with different node and edge types (or columns) the IDs read back differ from those written", role=f"{role}:{a.text()}"))
+                else:
+                    ok = col_ok and _guard_says_none(a.guards, typ)
+                    res.inst("F-CAST", f"parse_bipartite_edgelist:{call.lineno} {role} <- raw {a.text()} when {typ} is None", ok)
+                    if not ok:
+                        why = f"column {col} instead of {want[role]}" if not col_ok else f"without `{typ}` being None on that path"
+                        res.add(mk_finding(PROP, "F-CAST", fn, call, f"parse_bipartite_edgelist: the {role} handed to add_node_to_edge can be the raw field `{a.text()}` ({why}); the documented cast is skipped", role=f"{role}:raw:{a.text()}"))
             if not casts:
                 res.add(mk_finding(PROP, "F-CAST", fn, call, f"parse_bipartite_edgelist: no path casts the {role} with `{typ}`", role=f"{role}:none"))
     # parse_edgelist: members are cast element-wise with nodetype
@@ -307,6 +386,13 @@ def check_cast(repo, res, fns):
                     ok = True
                 if isinstance(n, ast.Call) and isinstance(n.func, ast.Name) and n.func.id == "map" and n.args and isinstance(n.args[0], ast.Name) and n.args[0].id == "nodetype":
                     ok = True
+        if not ok:
+            # loop form (possibly inside a nested helper): for label in labels: members.append(nodetype(label))
+            loop_vars = set()
+            for n in ast.walk(fe.node):
+                if isinstance(n, (ast.For, ast.comprehension)):
+                    loop_vars |= {x.id for x in ast.walk(n.target) if isinstance(x, ast.Name)}
+            ok = any(isinstance(n, ast.Call) and isinstance(n.func, ast.Name) and n.func.id == "nodetype" and len(n.args) == 1 and isinstance(n.args[0], ast.Name) and n.args[0].id in loop_vars for n in ast.walk(fe.node))
         res.inst("F-CAST", f"parse_edgelist:{call.lineno} members are cast element-wise with nodetype", ok)
         if not ok:
             res.add(mk_finding(PROP, "F-CAST", fe, call, "parse_edgelist: the members handed to the network are never cast element-wise with `nodetype`", role="members"))
